@@ -329,14 +329,36 @@ class Facts:
 
     # ---- lookup helpers ----
     def body(self, path):
-        return self.bodies.get(path)
+        return self._v(self.bodies.get(path))
+
+    def _v(self, b):
+        """rules get the normalised view of every body they look up by role (set auto_view = False for the raw MIR)"""
+        if b is None or not getattr(self, "auto_view", False):
+            return b
+        return self.view(b)
+
+    def raw(self, b):
+        return getattr(b, "base", b)
+
+    def view(self, body, keep=(), unfold=True, policy=None):
+        """normalised view of a body (sa/inline.py): private helpers inlined, closures of higher-order std calls unfolded"""
+        from . import inline
+        if body is None:
+            return None
+        if isinstance(body, inline.ViewBody):
+            return body
+        key = (body.path, tuple(sorted(keep)), unfold, policy)
+        c = self.__dict__.setdefault("_views", {})
+        if key not in c:
+            c[key] = inline.build(self, body, policy=policy, keep=keep, unfold=unfold)
+        return c[key]
 
     def find(self, suffix):
         """bodies whose path ends with `suffix` (segment boundary)."""
         out = []
         for p, b in self.bodies.items():
             if p == suffix or p.endswith("::" + suffix):
-                out.append(b)
+                out.append(self._v(b))
         return out
 
     def one(self, suffix):
@@ -348,13 +370,13 @@ class Facts:
         out = []
         for p, b in self.bodies.items():
             if b.name == method and b.impl_trait and (b.impl_trait == trait or b.impl_trait.endswith("::" + trait)):
-                out.append(b)
+                out.append(self._v(b))
         return out
 
     def trait_default(self, trait, method):
         for p, b in self.bodies.items():
             if b.name == method and b.in_trait and (b.in_trait == trait or b.in_trait.endswith("::" + trait)):
-                return b
+                return self._v(b)
         return None
 
     def closures_of(self, body):
@@ -433,7 +455,7 @@ class Facts:
         return seen
 
     def callees(self, body):
-        key = body.path
+        key = (body.path, hasattr(body, "base"))
         if key not in self._cg:
             outs = []
             for bb, t in body.calls():
@@ -553,6 +575,22 @@ def const_val(op):
     if op and op.get("k") == "const":
         if "val" in op:
             return op["val"]
+    return None
+
+
+def resolve_const(b, op, depth=6):
+    """constant value of an operand, following plain single-definition copies (parameters of inlined helpers are such copies)"""
+    for _ in range(depth):
+        v = const_val(op)
+        if v is not None or op is None:
+            return v
+        pl = op_place(op)
+        if pl is None or pl["p"]:
+            return None
+        ds = b.defs().get(pl["l"], [])
+        if len(ds) != 1 or ds[0][0] != "assign" or ds[0][3]["rv"]["k"] not in ("use", "cast"):
+            return None
+        op = ds[0][3]["rv"]["op"]
     return None
 
 
@@ -743,6 +781,24 @@ def call_blocks(body, *names, pred=None):
     return out
 
 
+def call_or_inlined(body, *names):
+    """blocks where a function named by `names` is called, or - in a normalised view - where its inlined copy starts"""
+    out = []
+    for i, blk in enumerate(body.blocks):
+        if blk["cleanup"]:
+            continue
+        t = blk["term"]
+        if not t:
+            continue
+        if t["k"] == "call" and callee_is(t, *names):
+            out.append(i)
+        elif t["k"] == "goto" and t.get("inl_call"):
+            d = t["inl_call"]
+            if any(d == n or d.endswith("::" + n) for n in names):
+                out.append(i)
+    return out
+
+
 def fmt_path(body, blocks):
     return " -> ".join("bb%d(%s)" % (b, body.loc(b).rsplit(":", 1)[1]) for b in blocks)
 
@@ -784,6 +840,30 @@ def def_of_local(body, l):
 
 
 _ATOMIC_RE = re.compile(r"(?:^|::)atomic::Atomic(?:::<[^>]*>|[A-Z][A-Za-z0-9]*)?::([a-z_]+)$")
+
+
+def discr_of_call(b, op, *names):
+    """True if operand `op` is (a copy of) the discriminant of the value a call to one of `names` returned directly"""
+    pl = op_place(op) if op else None
+    for _ in range(4):
+        if pl is None:
+            return False
+        ds = b.defs().get(pl["l"], [])
+        if len(ds) != 1:
+            return False
+        kind, bi, si, node, projs = ds[0]
+        if kind == "call":
+            return callee_is(node, *names)
+        rv = node["rv"]
+        if rv["k"] == "discr":
+            pl = rv["pl"]
+        elif rv["k"] in ("use", "cast"):
+            pl = op_place(rv["op"])
+        elif rv["k"] == "ref":
+            pl = rv["pl"]
+        else:
+            return False
+    return False
 
 
 def atomic_op(t):
